@@ -938,7 +938,7 @@ type scalarExec struct {
 	region *ssa.BasicBlock // the block the outermost walk started from
 	// visit, when set, sees every instruction of the blocks the outermost walk passes through, with a way to ask for
 	// the decided value of an operand
-	visit func(in ssa.Instruction, val func(ssa.Value) (int64, bool))
+	visit   func(in ssa.Instruction, val func(ssa.Value) (int64, bool))
 	tables  map[*ssa.Global]map[int64]int64
 	tableOK map[*ssa.Global]bool
 }
@@ -947,9 +947,9 @@ type execResult struct {
 	Returned bool    // a Return was reached
 	Results  []int64 // its decided results
 	Decided  []bool
-	NilConst []bool // the result is the nil constant
+	NilConst []bool             // the result is the nil constant
 	PhiIn    map[*ssa.Phi]int64 // on Looped: the decided values the phis of the block come back to receive
-	Looped   bool // came back to a visited block
+	Looped   bool               // came back to a visited block
 	GaveUp   bool
 }
 
